@@ -15,6 +15,36 @@
 //              no rounding takes place, and the statement is demanded with guard band 0 / slack 0.
 //  * rounded : otherwise.  Guard band 3/S around every input edge (samples inside it are skipped
 //              and counted) and area slack (sum of vertex counts + crossings) * extent / S.
+//
+// ---------------------------------------------------------------------------------------------
+// FINDING on the unchanged tree (adjudicated: genuine, inputs inside the quantifier).
+// Root cause: external/clipper/clipper.cpp, Clipper::JoinCommonEdges -> Poly2ContainsPoly1():
+// when every vertex of fragment 1 lies ON fragment 2 (fragments sharing an edge/vertex, or zero-width
+// spikes of coincident edges not yet removed) the function falls through to `return true`, so a
+// piece that merely touches its neighbour is flagged as its hole (orientation reversed), or a real
+// hole is flagged as an outer, or two pieces stay joined in one figure-eight vertex list.
+// gdstk then (a) cannot link the pseudo hole: BooleanError and the piece is dropped [error_code +
+// membership missing_only], (b) links it through the outside: lobe of negative orientation
+// [mixed_winding / area_identity too_small], (c) returns a hole as a second polygon [overlap].
+// Minimal cases (scaling 1000, lattice coordinates, all "exact" regime):
+//   xor  A=[(0,1),(2,1),(0,2)]  B=[(0,0),(2,1),(1,1),(0,2)]  -> only [(2,1),(0,1),(0,0)] + BooleanError
+//   xor  A=[(0,2),(2,2),(1,1),(1,0)]  B=[(0,2),(1,1),(2,2),(1,0)] -> one polygon
+//        [(1,1),(1,0),(2,2),(1,1),(0,2),(2,2)], lobes of opposite orientation, area() 0.5 instead of 1.5
+//   not  A={[(0,0),(2,1),(0,2)],[(0,0),(2,1),(2,0)]}  B=[(1,0),(2,0),(1,1)] -> negative lobe
+//   and  A=(square 0..4 not [(1,1),(2,2),(2,1)]) not [(2,2),(2,3),(3,1)] (gdstk's own key-holed
+//        result, holes touching at (2,2))  B=[(1,1),(3,1),(2,3)] -> BooleanError, piece dropped
+// Candidate repair evaluated with this harness (quick tier: every class disappears except
+// BooleanError at scaling 1 on the unit lattice; 45 replays of thorough-tier violations all pass):
+//  1. clipper.cpp Poly2ContainsPoly1: instead of the final `return true`, decide with the edge
+//     midpoints of polygon 1 tested against polygon 2 on a doubled grid (Path of 2*Pt; IntPoint
+//     (Pt.X+Next->Pt.X, Pt.Y+Next->Pt.Y)); keep `return true` only if those are all on the boundary.
+//  2. clipper_tools.cpp link_holes: before linking a child, test a point strictly inside it (ear at
+//     its lexicographically smallest vertex) against the parent contour; if outside, append the
+//     child reversed as an independent polygon instead of linking it / raising BooleanError.
+//  3. clipper_tools.cpp boolean(): for ctXor execute into Paths and run a ctUnion/pftNonZero pass
+//     over them into the PolyTree (restores orientation and nesting of inverted pieces).
+// 1 alone leaves only rounded-regime xor failures; 2+3 alone leave ~5% of the xor mixed_winding cases.
+// ---------------------------------------------------------------------------------------------
 #include <gdstk/gdstk.hpp>
 
 #include <bitset>
@@ -170,14 +200,14 @@ struct ShapeSet {
 struct Operand {
     std::vector<const Poly*> fine;  // integer multiples of 1/S
     std::vector<Polygon*> gp;       // the same polygons as gdstk objects (not owned)
-    Mask cover, near;
+    Mask cover, near, onb;  // onb: samples exactly on the operand's boundary (never for lattice shapes)
     i128 area2 = 0;        // twice the covered area, fine units^2
     i128 area_slack2 = 0;  // uncertainty of area2 (0: exact)
     bool area_ok = true;
     const char* area_mode = "shoelace";  // shoelace | merge | none
     int nverts = 0;
     bool keyholed = false;
-    void clear() { fine.clear(); gp.clear(); cover.reset(); near.reset(); area2 = 0; area_slack2 = 0; area_ok = true; area_mode = "shoelace"; nverts = 0; keyholed = false; }
+    void clear() { fine.clear(); gp.clear(); cover.reset(); near.reset(); onb.reset(); area2 = 0; area_slack2 = 0; area_ok = true; area_mode = "shoelace"; nverts = 0; keyholed = false; }
 };
 
 static bool has_repeated_vertex(const Poly& p) {
@@ -214,6 +244,7 @@ static void operand_from_fine(const Ctx& cx, const std::vector<Poly>& fine, cons
     for (int k = 0; k < cx.grid->count(); k++) {
         if (eg::covered(U, cx.sampU[k])) o.cover.set(k);
         if (eg::dist_boundary(U, cx.sampU[k]) <= 3.0L * 84) o.near.set(k);
+        for (auto& p : U) if (eg::on_boundary(p, cx.sampU[k])) { o.onb.set(k); o.near.set(k); break; }
     }
 }
 
@@ -411,7 +442,7 @@ static bool check_pair(const Ctx& cx, const Operand& A, const Operand& B, int ke
     PairInfo pi = analyse(A, B);
     bool nontriv = pi.nontrivial();
     const Grid& G = *cx.grid;
-    Mask valid = pi.exact ? G.all : (G.all & ~(A.near | B.near));
+    Mask valid = pi.exact ? (G.all & ~(A.onb | B.onb)) : (G.all & ~(A.near | B.near));
     int nvalid = (int)valid.count();
     T.pairs++;
     if (nontriv) T.pairs_nontrivial++;
@@ -450,7 +481,7 @@ static bool check_pair(const Ctx& cx, const Operand& A, const Operand& B, int ke
             for (auto& v : U[i]) { v.x *= 84; v.y *= 84; x0 = std::min(x0, v.x); x1 = std::max(x1, v.x); y0 = std::min(y0, v.y); y1 = std::max(y1, v.y); }
             bb[4 * i] = x0; bb[4 * i + 1] = x1; bb[4 * i + 2] = y0; bb[4 * i + 3] = y1;
         }
-        int bad = -1, over = -1, badc = 0, mixed = -1;
+        int bad = -1, over = -1, badc = 0, mixed = -1, nmissing = 0, nextra = 0;
         sgnmask.assign(U.size(), 0);
         for (int k = 0; k < G.count(); k++) {
             if (!valid[k]) continue;
@@ -466,7 +497,10 @@ static bool check_pair(const Ctx& cx, const Operand& A, const Operand& B, int ke
                     if (sgnmask[i] == 3 && mixed < 0) mixed = k;
                 }
             }
-            if ((c > 0) != expect[k] && bad < 0) { bad = k; badc = c; }
+            if ((c > 0) != expect[k]) {
+                if (bad < 0) { bad = k; badc = c; }
+                if (expect[k]) nmissing++; else nextra++;
+            }
             if (c > 1 && over < 0) over = k;
         }
         T.samples_compared += nvalid;
@@ -477,9 +511,9 @@ static bool check_pair(const Ctx& cx, const Operand& A, const Operand& B, int ke
         if (bad >= 0) {
             opfail[o] = true;
             JFields tg = ectag;
-            tg.push_back({"expected_covered", jbool(expect[bad])});
+            tg.push_back({"mismatch", jstr(nextra == 0 ? "missing_only" : nmissing == 0 ? "extra_only" : "missing_and_extra")});
             report(cx, "membership", A, B, o, pi, &r,
-                   fmt("sample point (%.6f, %.6f): in A=%d, in B=%d, so (A %s B) %s it, but the result %s it", (double)cx.sampU[bad].x / (84.0 * cx.S), (double)cx.sampU[bad].y / (84.0 * cx.S),
+                   fmt("%d sample point(s) of the expected region are not covered by the result, %d outside it are covered; e.g. (%.6f, %.6f): in A=%d, in B=%d, so (A %s B) %s it, but the result %s it", nmissing, nextra, (double)cx.sampU[bad].x / (84.0 * cx.S), (double)cx.sampU[bad].y / (84.0 * cx.S),
                        (int)A.cover[bad], (int)B.cover[bad], OPN[o], expect[bad] ? "covers" : "does not cover", badc ? "covers" : "does not cover"),
                    tg);
         }
@@ -489,9 +523,13 @@ static bool check_pair(const Ctx& cx, const Operand& A, const Operand& B, int ke
         }
         if (mixed >= 0) {
             opfail[o] = true;
+            JFields tg = ectag;
+            tg.push_back({"coverage_correct", jbool(bad < 0 && over < 0)});
+            int which = 0;
+            for (size_t i = 0; i < sgnmask.size(); i++) if (sgnmask[i] == 3) which = (int)i;
             report(cx, "mixed_winding", A, B, o, pi, &r,
-                   fmt("one result polygon winds positively around some sample points and negatively around others (e.g. (%.6f, %.6f)): it is not a key-hole polygon with a zero-width slit, its shoelace area is not the area it covers",
-                       (double)cx.sampU[mixed].x / (84.0 * cx.S), (double)cx.sampU[mixed].y / (84.0 * cx.S)), ectag);
+                   fmt("result polygon %d winds positively around some sample points and negatively around others (e.g. (%.6f, %.6f)): lobes of opposite orientation joined in one vertex list, so its shoelace area (%.6g, what Polygon::area() reports) is not the area it covers; not a key-hole polygon with a zero-width slit",
+                       which, (double)cx.sampU[mixed].x / (84.0 * cx.S), (double)cx.sampU[mixed].y / (84.0 * cx.S), 0.5 * (double)iabs(eg::area2(r.fine[which])) / ((double)cx.S * (double)cx.S)), tg);
         }
         if (opfail[o]) ok = false;
         {
@@ -521,7 +559,7 @@ static bool check_pair(const Ctx& cx, const Operand& A, const Operand& B, int ke
                 report(cx, "area_identity", A, B, -1, pi, NULL,
                        fmt("%s violated: twice the areas in units of 1/S^2: lhs=%s rhs=%s allowed slack=%s (|A|=%s |B|=%s or=%s and=%s not=%s xor=%s)", ids[k].name, i128s(ids[k].lhs).c_str(),
                            i128s(ids[k].rhs).c_str(), i128s(ids[k].sl).c_str(), i128s(A.area2).c_str(), i128s(B.area2).c_str(), i128s(ar[0]).c_str(), i128s(ar[1]).c_str(), i128s(ar[2]).c_str(), i128s(ar[3]).c_str()),
-                       {{"identity", jint(k)}});
+                       {{"identity", jint(k)}, {"result_area", jstr(ids[k].lhs < ids[k].rhs ? "too_small" : "too_large")}});
             }
         }
     }
@@ -536,27 +574,34 @@ static bool check_merge(const Ctx& cx, Operand& Gp) {
     static const Operand EMPTY;
     PairInfo pi = analyse(Gp, EMPTY);
     const Grid& G = *cx.grid;
-    Mask valid = pi.exact ? G.all : (G.all & ~Gp.near);
+    Mask valid = pi.exact ? (G.all & ~Gp.onb) : (G.all & ~Gp.near);
     OpResult r;
     run_op(Gp, EMPTY, Operation::Or, cx.S, false, r);
     T.cases++;
     T.m["merge_cases"]++;
     bool ok = true;
-    if (r.ec != ErrorCode::NoError) { ok = false; report(cx, "error_code", Gp, EMPTY, 0, pi, &r, fmt("boolean() returned ErrorCode %d", (int)r.ec)); }
-    if (r.offgrid) { ok = false; report(cx, "offgrid", Gp, EMPTY, 0, pi, &r, r.offgrid_what); }
+    if (r.ec != ErrorCode::NoError) { ok = false; report(cx, "error_code", Gp, EMPTY, 0, pi, &r, fmt("boolean() returned ErrorCode %d", (int)r.ec), {{"error_code", jint((int)r.ec)}}); }
+    if (r.offgrid) { ok = false; report(cx, "offgrid", Gp, EMPTY, 0, pi, &r, r.offgrid_what, {{"error_code", jint((int)r.ec)}}); }
     std::vector<Poly> U = r.fine;
     for (auto& p : U) for (auto& v : p) { v.x *= 84; v.y *= 84; }
-    int bad = -1, over = -1;
+    int bad = -1, over = -1, mixed = -1;
+    std::vector<char> sg(U.size(), 0);
     for (int k = 0; k < G.count(); k++) {
         if (!valid[k]) continue;
-        int c = eg::cover_count(U, cx.sampU[k]);
+        int c = 0;
+        for (size_t i = 0; i < U.size(); i++) {
+            if (eg::on_boundary(U[i], cx.sampU[k])) { c++; continue; }
+            int w = eg::winding(U[i], cx.sampU[k]);
+            if (w != 0) { c++; sg[i] |= w > 0 ? 1 : 2; if (sg[i] == 3 && mixed < 0) mixed = k; }
+        }
         if ((c > 0) != Gp.cover[k] && bad < 0) bad = k;
         if (c > 1 && over < 0) over = k;
     }
+    if (mixed >= 0) { ok = false; report(cx, "mixed_winding", Gp, EMPTY, 0, pi, &r, "a polygon of the merged group winds positively around some sample points and negatively around others", {{"error_code", jint((int)r.ec)}, {"coverage_correct", jbool(bad < 0 && over < 0)}}); }
     T.samples_compared += (int)valid.count();
     T.samples_skipped += G.count() - (int)valid.count();
-    if (bad >= 0) { ok = false; report(cx, "membership", Gp, EMPTY, 0, pi, &r, fmt("sample point (%.6f, %.6f): union of the group %s it but the result does not agree", (double)cx.sampU[bad].x / (84.0 * cx.S), (double)cx.sampU[bad].y / (84.0 * cx.S), Gp.cover[bad] ? "covers" : "does not cover"), {{"expected_covered", jbool(Gp.cover[bad])}}); }
-    if (over >= 0) { ok = false; report(cx, "overlap", Gp, EMPTY, 0, pi, &r, "a sample point is covered by more than one result polygon"); }
+    if (bad >= 0) { ok = false; report(cx, "membership", Gp, EMPTY, 0, pi, &r, fmt("sample point (%.6f, %.6f): union of the group %s it but the result does not agree", (double)cx.sampU[bad].x / (84.0 * cx.S), (double)cx.sampU[bad].y / (84.0 * cx.S), Gp.cover[bad] ? "covers" : "does not cover"), {{"error_code", jint((int)r.ec)}, {"mismatch", jstr(Gp.cover[bad] ? "missing" : "extra")}}); }
+    if (over >= 0) { ok = false; report(cx, "overlap", Gp, EMPTY, 0, pi, &r, "a sample point is covered by more than one result polygon", {{"error_code", jint((int)r.ec)}}); }
     Gp.area_ok = ok;
     Gp.area_mode = "merge";
     Gp.area2 = r.area2;
@@ -823,7 +868,10 @@ int main(int argc, char** argv) {
     run.note(fmt("g=4 start-fixed: %d triangles, %d with n<=4; inner shapes %d; nested pairs (B strictly inside A) %d", nT4, (int)g4sf.size(), (int)in4.size(), (int)nest4.size()));
 
     Side g3all = Side::singles(g3sf), g3tri = Side::singles(g3sf, 0, nT3), g3triCCW = Side::singles(g3sf, 0, nC3), g3triCW = Side::singles(g3sf, nC3, nT3);
-    Side g3grpU = Side::groups(g3sf, 0, nT3, false);
+    Side g3grpH;  // two-shape groups {ccw T_i, ccw T_j} and {ccw T_i, cw T_j}, i<=j
+    g3grpH.set = &g3sf;
+    for (int i = 0; i < nC3; i++)
+        for (int j = i; j < nC3; j++) { g3grpH.items.push_back({i, j}); g3grpH.items.push_back({i, nC3 + j}); }
     Side g4tri = Side::singles(g4sf, 0, nT4), g4triCCW = Side::singles(g4sf, 0, nC4), g4all = Side::singles(g4sf);
 
     if (run.replaying() && run.rarg("idx").empty()) { run.internal_error("replay args understood: 'A=.. B=.. S=.. g=.. r=..' or 'sub=.. idx=..'"); return run.finish(); }
@@ -836,9 +884,9 @@ int main(int argc, char** argv) {
         product_bound("q.single.g3n4_x_tri.s1", "g=3 start-fixed: every n<=4 shape x every triangle", g3all, g3tri, G3, S1);
         product_bound("q.single.g3n4_x_tri.s2p20", "g=3 start-fixed: every n<=4 shape x every triangle", g3all, g3tri, G3, S20);
         product_bound("q.single.g3n4_x_tri.s2p40", "g=3 start-fixed: every n<=4 shape x every triangle", g3all, g3tri, G3, S40);
-        product_bound("q.group_a.g3tri.s1000", "A = every unordered two-shape group {T_i,T_j}, i<=j, of g=3 start-fixed triangles (both orientations), B = every counter-clockwise g=3 triangle", g3grpU, g3triCCW, G3, S1000);
-        product_bound("q.group_b.g3tri.s1000", "A = every clockwise g=3 start-fixed triangle, B = every unordered two-shape group of g=3 start-fixed triangles", g3triCW, g3grpU, G3, S1000, 3000);
-        chain_bound("q.chain.g4.s1000", std::string(D_CHAIN) + "; then C op D for every counter-clockwise g=4 start-fixed triangle D", nest4, 0, g4sf, in4, &g4triCCW, 1, G4f, S1000, 1, 2000);
+        product_bound("q.group_a.g3tri.s1000", "A = every two-shape group {ccw T_i, ccw T_j} and {ccw T_i, cw T_j}, i<=j, of g=3 start-fixed triangles, B = every counter-clockwise g=3 triangle", g3grpH, g3triCCW, G3, S1000);
+        product_bound("q.group_b.g3tri.s1000", "A = every clockwise g=3 start-fixed triangle, B = every two-shape group {ccw T_i, ccw T_j} and {ccw T_i, cw T_j}, i<=j", g3triCW, g3grpH, G3, S1000, 3000);
+        chain_bound("q.chain.g4.s1000", std::string(D_CHAIN) + "; then C op D for every counter-clockwise g=4 start-fixed triangle D", nest4, 0, g4sf, in4, &g4triCCW, 1, G4, S1000, 1, 2000);
         chain_bound("q.chain.g4.first_step.s1", D_CHAIN, nest4, 0, g4sf, in4, NULL, 1, G4f, S1, 32, 1);
         chain_bound("q.chain.g4.first_step.s2p40", D_CHAIN, nest4, 0, g4sf, in4, NULL, 1, G4f, S40, 32, 1);
     } else {
@@ -857,10 +905,6 @@ int main(int argc, char** argv) {
         Side g3af_all = Side::singles(g3af);
         Side g4af_tri = Side::singles(g4af, 0, nT4a), g4af_all = Side::singles(g4af);
         Side g3grpO = Side::groups(g3sf, 0, nT3, true);
-        Side g3grpH;  // {ccw_i, ccw_j} and {ccw_i, cw_j}, i<=j
-        g3grpH.set = &g3sf;
-        for (int i = 0; i < nC3; i++)
-            for (int j = i; j < nC3; j++) { g3grpH.items.push_back({i, j}); g3grpH.items.push_back({i, nC3 + j}); }
 
         product_bound("t.single.g3n4.s1000", D_SINGLE, g3all, g3all, G3, S1000);
         product_bound("t.single.g3n4.s1", D_SINGLE, g3all, g3all, G3, S1);
@@ -885,7 +929,7 @@ int main(int argc, char** argv) {
             for (int b1 : ins)
                 for (int b2 : ins)
                     if (b1 <= b2 && b1 < nTin && b2 < nTin) trip5.push_back({a, b1, b2});
-            if ((int)ins.size() == (int)in5.size())
+            if (g5sf.area2lat[a] == 32 && g5sf.lat[a].size() == 4)  // the full 4x4 square, both orientations
                 for (int b1 = 0; b1 < nTin; b1++)
                     for (int b2 = 0; b2 < nTin; b2++) big5.push_back({a, b1, b2});
         }
@@ -901,7 +945,7 @@ int main(int argc, char** argv) {
         chain_bound("t.chain.g4.s2p20", std::string(D_CHAIN) + "; then C op D and D op C for every g=4 start-fixed triangle D", nest4, 0, g4sf, in4, &g4tri, 2, G4f, S20, 1, 2000);
         chain_bound("t.chain.g4.s2p40", std::string(D_CHAIN) + "; then C op D and D op C for every g=4 start-fixed triangle D", nest4, 0, g4sf, in4, &g4tri, 2, G4f, S40, 1, 2000);
         chain_bound("t.twoholes.g5.s1000", "A op {B1,B2} for every A (g=5 n<=4 start-fixed) and every unordered pair of inner triangles strictly inside it (two holes linked in one result, holes may touch or overlap)", trip5, 1, g5sf, in5, NULL, 1, G5, S1000, 512, 1);
-        chain_bound("t.chain2.g5.s1000", "depth 2: C = (A not B1) not B2 for every A (g=5 n<=4) containing the whole inner 3x3 lattice and every ordered pair of inner triangles, every step checked; then C op D and D op C for every counter-clockwise inner triangle D", big5, 2, g5sf, in5, &in5triCCW, 2, G5, S1000, 1, 2000);
+        chain_bound("t.chain2.g5.s1000", "depth 2: C = (A not B1) not B2 for A = the full g=5 square (both orientations) and every ordered pair (B1,B2) of triangles on the inner 3x3 lattice (disjoint, touching, overlapping, equal), every step checked; then C op D and D op C for every counter-clockwise inner triangle D", big5, 2, g5sf, in5, &in5triCCW, 2, G5, S1000, 1, 2000);
         product_bound("t.group_both.g3tri.s1000", "two-shape groups on both sides: groups {ccw T_i, ccw T_j} and {ccw T_i, cw T_j}, i<=j, of g=3 start-fixed triangles, every ordered pair of groups", g3grpH, g3grpH, G3, S1000, 3000);
         product_bound("t.single.g3n6.allstart.s1000", "g=3, n<=6, every start vertex and both orientations, every ordered pair of single shapes", g3af_all, g3af_all, G3, S1000, 4000);
         product_bound("t.single.g4.allstart.tri_x_n4.s1000", "g=4, every start vertex, both orientations: triangles x (triangles + quadrilaterals)", g4af_tri, g4af_all, G4, S1000, 4000);
